@@ -82,4 +82,10 @@ CHECKS = {
   "text": "About 320 generated structures per quick run (8700 thorough) incl. zero couplings, opposite-phase pairs, prefix-related resonance names, weighted samples and non-dividing batches. Exploration level.",
   "note": "Trusted: numpy sums of the library's own single-chain tensors (linearity is the property; the single-chain values themselves are C01/C04/C15). Fit-fraction clause asserted for resonance lists that partition the chains; method='new' is called with an explicit resonance list as the configuration loader does.",
  },
+ "C17": {
+  "engine": "hypothesis-stateful",
+  "technique": "stateful property-based testing with fault injection: Hypothesis-generated histories of nested override blocks and read-only computations on a generated model, an exception injected in the block body or at the k-th density evaluation (by wrapping the model's sum_amp from the harness), state snapshot and bit-identical density compared before/after every step",
+  "text": "About 200 histories per quick run (5000 thorough), each 1-8 steps with nesting depth up to 3; prior state (restricted selection, non-default and bounded parameters) is varied. Exploration level over histories x fault points.",
+  "note": "Trusted: the harness snapshot (chains_idx, all parameter values, mask table, mask_factor flags, a private config key) and numpy array equality. No repository hook: faults are injected by wrapping a bound method of the instance.",
+ },
 }
